@@ -140,7 +140,7 @@ def run(ctx):
     drive.setup(hooks=False)
     rng = random.Random(ctx.seed)
     # ---- design: exhaustive to a small depth for the first project, hist hidden by a VIEW
-    d_ex = ctx.pick(2, 3)
+    d_ex = 2          # depth 3 is ~70 times larger (about an hour); deeper histories are covered by simulation
     res = tlc.run(tlc.module_text("Bumpver.tla"), CFG % "VIEW View\n", name="Bumpver", workers=16, extra_files={"Gen_Hist.tla": gen_hist(PROJECTS[0], d_ex)}, timeout=3400, xmx="12g")
     ctx.add_design(res, "Bumpver.tla exhaustive, %s, histories of up to %d invocations/commits/branch switches" % (PROJECTS[0]["pattern"], d_ex))
     if res.violation:
